@@ -1,0 +1,76 @@
+//go:build verif
+// +build verif
+
+package zenodb
+
+import (
+	"fmt"
+	"os"
+	"strconv"
+	"sync"
+	"sync/atomic"
+	"time"
+)
+
+// Verification hooks (build tag verif only): counters for exact quiescence,
+// clock access, and crash points for fault enumeration. Nothing here changes
+// behaviour unless a crash point is armed through the environment.
+
+var verifCounters sync.Map // "<db ptr>/<table>/<name>" -> *int64
+
+func verifCounterFor(db *DB, table string, name string) *int64 {
+	key := fmt.Sprintf("%p/%s/%s", db, table, name)
+	c, _ := verifCounters.LoadOrStore(key, new(int64))
+	return c.(*int64)
+}
+
+func verifCount(name string, t *table) {
+	atomic.AddInt64(verifCounterFor(t.db, t.Name, name), 1)
+}
+
+// VerifCounter returns the named hook counter of a table.
+func (db *DB) VerifCounter(table string, name string) int64 {
+	return atomic.LoadInt64(verifCounterFor(db, table, name))
+}
+
+// VerifAdvanceClock advances the database clock (as an accepted point would).
+func (db *DB) VerifAdvanceClock(t time.Time) {
+	db.clock.Advance(t)
+}
+
+// VerifNow returns the database clock.
+func (db *DB) VerifNow() time.Time {
+	return db.clock.Now()
+}
+
+var (
+	verifPointMx    sync.Mutex
+	verifPointHits  = map[string]int{}
+	verifPointLog   *os.File
+	verifPointArmed = os.Getenv("VERIF_CRASH_POINT")
+	verifPointNth, _ = strconv.Atoi(os.Getenv("VERIF_CRASH_NTH"))
+)
+
+// verifPoint marks a step of the flush/offset protocol. With VERIF_POINT_LOG
+// set, every hit is appended to that file; with VERIF_CRASH_POINT=name and
+// VERIF_CRASH_NTH=n the process exits (as if killed) at the n-th hit of name.
+func verifPoint(name string) {
+	verifPointMx.Lock()
+	defer verifPointMx.Unlock()
+	verifPointHits[name]++
+	if verifPointLog == nil {
+		if p := os.Getenv("VERIF_POINT_LOG"); p != "" {
+			verifPointLog, _ = os.OpenFile(p, os.O_APPEND|os.O_CREATE|os.O_WRONLY, 0644)
+		}
+	}
+	if verifPointLog != nil {
+		fmt.Fprintf(verifPointLog, "%s %d\n", name, verifPointHits[name])
+	}
+	if verifPointArmed == name && verifPointHits[name] == verifPointNth {
+		if verifPointLog != nil {
+			fmt.Fprintf(verifPointLog, "CRASH %s %d\n", name, verifPointNth)
+			verifPointLog.Sync()
+		}
+		os.Exit(137)
+	}
+}
